@@ -87,6 +87,9 @@ def _verify_job(job):
     try:
         eng = build(tag)
         v = eng.verify(name)
+        extra = []
+        if getattr(eng, 'post_verify', None):
+            extra = eng.post_verify(v)
         recs = []
         for ob in v.obligations:
             r = ObRec(ob)
@@ -96,7 +99,7 @@ def _verify_job(job):
         return {'name': name, 'tag': tag, 'fi': v.fi.describe(),
                 'undecided': v.undecided, 'paths': v.paths,
                 'exit_kinds': v.exit_kinds, 'obligations': recs,
-                'time_s': v.time_s, 'error': None}
+                'time_s': v.time_s, 'error': None, 'extra': extra}
     except KeyError as e:
         return {'name': name, 'tag': tag, 'error': None, 'fi': None,
                 'undecided': ['function not found in the working tree '
@@ -216,6 +219,9 @@ class Check(object):
                 self.functions.append(o['fi'])
             for u in o['undecided']:
                 self.undecided.append('%s: %s' % (nm, u))
+            for (eid, ok, desc, wit) in o.get('extra', []) or []:
+                self.add_eval_obligation('%s[%s]' % (eid, o['tag']), ok,
+                                         desc, wit)
             can = [r for r in o['obligations'] if r.kind == 'canary']
             real = [r for r in o['obligations'] if r.kind != 'canary']
             if not o['undecided']:
